@@ -363,7 +363,33 @@ type MessageBadEmptyLenTag struct {
 
 func (*MessageBadEmptyLenTag) GetID() uint32 { return 900025 }
 
+// fields without a name of their own (embedded predeclared types, directly or through a lower-case alias):
+// unexported like any other lower-case field, so nothing can set or read them
+type MessageBadEmbeddedScalar struct {
+	Seq uint8
+	uint32
+}
+
+func (*MessageBadEmbeddedScalar) GetID() uint32 { return 900026 }
+
+type lowerAlias = uint16
+
+type MessageBadEmbeddedAlias struct {
+	lowerAlias
+	B uint8
+}
+
+func (*MessageBadEmbeddedAlias) GetID() uint32 { return 900027 }
+
+type MessageBadEmbeddedString struct {
+	B uint8
+	string `mavlen:"4"`
+}
+
+func (*MessageBadEmbeddedString) GetID() uint32 { return 900028 }
+
 var malformed = []message.Message{
+	&MessageBadEmbeddedScalar{}, &MessageBadEmbeddedAlias{}, &MessageBadEmbeddedString{},
 	&MessageBadZeroLenString{}, &MessageBadNegativeLenString{}, &MessageBadEmptyLenTag{},
 	&MessageBadNamedScalar{}, &MessageBadNamedString{}, &MessageBadNamedArrayElem{}, &MessageBadEnumWithoutTag{},
 	&NoPrefixStruct{}, &MessageBadEnumNotUint64{}, &MessageBadEnumWireFloat{}, &MessageBadEnumWireUnknown{},
